@@ -25,12 +25,18 @@
 (*   ics     sequence of [name, val]: stated initial conditions; icform = "float" |    *)
 (*           "int" | "undef" (a name that cannot be evaluated)                         *)
 (*   horizon, where = "block" (MaxTime line) | "solver" (EquationSolver.MaxTime set    *)
-(*           before ParseString) | "default" (neither: horizon 0)                      *)
+(*           before ParseString) | "default" (neither: horizon 0) |                    *)
+(*           "late_ctor" / "late_parse": MaxTime line in the block, then - after       *)
+(*           EquationSolver(<block>) resp. ParseString(<block>) - the attribute        *)
+(*           EquationSolver.MaxTime is assigned cfg.late (larger or smaller).  That    *)
+(*           assignment comes too late to have any effect: the horizon of the solve    *)
+(*           stays the parsed one, and every C10_* invariant is stated against it.     *)
 (*   reduce  run_equation_reduction                                                    *)
 (*                                                                                     *)
 (* One action per critical section, each through a pure operator <Name>Op so that      *)
 (* Horizon_Trace uses the same definitions:                                            *)
-(*   Parse, IC_Pass1 (stated initial conditions / zeros), IC_Pass2 (exogenous paths,   *)
+(*   Parse, LateAssign (solver attribute written after parsing; horizon untouched),   *)
+(*   IC_Pass1 (stated initial conditions / zeros), IC_Pass2 (exogenous paths,   *)
 (*   the k axis; Reject), IC_Pass3 (time-zero value of simultaneous variables whose    *)
 (*   operands are known at time zero), IC_Pass4 (the same for decorative variables),   *)
 (*   Step(k) for k = 1..horizon (append to every non-exogenous series), Finish.        *)
@@ -75,6 +81,7 @@ WellOrdered(vs) ==
 ----------------------------------------------------------------------------
 (* what the user supplied *)
 HorizonOf(c) == IF c.where = "default" THEN 0 ELSE c.horizon
+IsLate(c) == c.where \in {"late_ctor", "late_parse"}
 
 SuppliedAt(c, i) == IF c.exo.form = "scalar" THEN c.exo.v ELSE c.exo.vals[i]
 ExoEvaluable(c)  == c.exo.form # "undef"
@@ -95,12 +102,17 @@ RejectedInput(c) == ICRejected(c) \/ ExoRejected(c)
 ----------------------------------------------------------------------------
 (* the state as a record, and the operators *)
 S0 == [phase |-> "setup", vars |-> << >>, deco |-> {}, horizon |-> 0,
-       series |-> << >>, tz |-> {}, step |-> 0, err |-> ""]
+       series |-> << >>, tz |-> {}, step |-> 0, err |-> "", smax |-> -1]
 
 ParseOp(c) ==
     LET vs == AllVars(c)
     IN [S0 EXCEPT !.phase = "parsed", !.vars = vs, !.deco = DecoSet(vs, c.reduce),
-                  !.horizon = HorizonOf(c)]
+                  !.horizon = HorizonOf(c),
+                  !.smax = IF c.where = "solver" THEN c.horizon ELSE -1]
+
+(* solver.MaxTime = N after the block was parsed: only the attribute changes *)
+LateAssignOp(s, c) ==
+    IF s.phase = "parsed" /\ IsLate(c) THEN [s EXCEPT !.phase = "assigned", !.smax = c.late] ELSE s
 
 RejectOp(s, why) == [s EXCEPT !.phase = "reject", !.series = << >>, !.tz = {}, !.err = why]
 
@@ -115,7 +127,7 @@ SuppliedPrefix(c, i, n) == IF i > n THEN << >> ELSE << SuppliedAt(c, i) >> \o Su
 
 (* pass 1: a stated initial condition, else zero, for every variable *)
 IC_Pass1Op(s, c) ==
-    IF s.phase # "parsed" THEN s
+    IF s.phase # (IF IsLate(c) THEN "assigned" ELSE "parsed") THEN s
     ELSE IF ICRejected(c) THEN RejectOp(s, "ic_unevaluable")
     ELSE [s EXCEPT !.phase = "ic1",
                    !.series = [n \in Names(s.vars) |->
@@ -193,33 +205,36 @@ StepsFrom(s, c, k) == IF k > s.horizon \/ s.phase \notin {"ic4", "step"} THEN s
 
 (* EquationSolver.SolveEquation() on a parsed block *)
 SolveOp(s, c) ==
-    FinishOp(StepsFrom(IC_Pass4Op(IC_Pass3Op(IC_Pass2Op(IC_Pass1Op(s, c), c), c), c), c, 1))
+    FinishOp(StepsFrom(IC_Pass4Op(IC_Pass3Op(IC_Pass2Op(IC_Pass1Op(LateAssignOp(s, c), c), c), c), c), c, 1))
 
 ----------------------------------------------------------------------------
 VARIABLES cfg,       \* the block and the supplied data (fixed along a behaviour)
-          phase,     \* "setup" | "parsed" | "ic1" .. "ic4" | "step" | "done" | "reject"
+          phase,     \* "setup" | "parsed" | "assigned" | "ic1" .. "ic4" | "step" | "done" | "reject"
           vlist,     \* variables after parsing (default t added)
           deco,      \* names classified decorative
           horizon,   \* MaxTime as the solver will use it
           series,    \* name -> sequence of values (entry i = period i-1)
           tz,        \* names whose time-zero value is known (time_zero_constants)
           step,      \* last completed period
-          err        \* reason of a Reject
+          err,       \* reason of a Reject
+          smax       \* the attribute EquationSolver.MaxTime (-1: None)
 
-hvars == << cfg, phase, vlist, deco, horizon, series, tz, step, err >>
+hvars == << cfg, phase, vlist, deco, horizon, series, tz, step, err, smax >>
 
 S == [phase |-> phase, vars |-> vlist, deco |-> deco, horizon |-> horizon,
-      series |-> series, tz |-> tz, step |-> step, err |-> err]
+      series |-> series, tz |-> tz, step |-> step, err |-> err, smax |-> smax]
 
 Become(s) == /\ phase' = s.phase /\ vlist' = s.vars /\ deco' = s.deco /\ horizon' = s.horizon
              /\ series' = s.series /\ tz' = s.tz /\ step' = s.step /\ err' = s.err
+             /\ smax' = s.smax
 
 Init == cfg \in Configs /\ phase = S0.phase /\ vlist = S0.vars /\ deco = S0.deco
         /\ horizon = S0.horizon /\ series = S0.series /\ tz = S0.tz /\ step = S0.step
-        /\ err = S0.err
+        /\ err = S0.err /\ smax = S0.smax
 
 Parse    == phase = "setup"  /\ Become(ParseOp(cfg))         /\ UNCHANGED cfg
-IC_Pass1 == phase = "parsed" /\ Become(IC_Pass1Op(S, cfg))   /\ UNCHANGED cfg
+LateAssign == phase = "parsed" /\ IsLate(cfg) /\ Become(LateAssignOp(S, cfg)) /\ UNCHANGED cfg
+IC_Pass1 == phase = (IF IsLate(cfg) THEN "assigned" ELSE "parsed") /\ Become(IC_Pass1Op(S, cfg))   /\ UNCHANGED cfg
 IC_Pass2 == phase = "ic1"    /\ Become(IC_Pass2Op(S, cfg))   /\ UNCHANGED cfg
 IC_Pass3 == phase = "ic2"    /\ Become(IC_Pass3Op(S, cfg))   /\ UNCHANGED cfg
 IC_Pass4 == phase = "ic3"    /\ Become(IC_Pass4Op(S, cfg))   /\ UNCHANGED cfg
@@ -227,7 +242,7 @@ Step(k)  == phase \in {"ic4", "step"} /\ k = step + 1 /\ k <= horizon
             /\ Become(StepOp(S, cfg, k)) /\ UNCHANGED cfg
 Finish   == phase \in {"ic4", "step"} /\ step = horizon /\ Become(FinishOp(S)) /\ UNCHANGED cfg
 
-Next == Parse \/ IC_Pass1 \/ IC_Pass2 \/ IC_Pass3 \/ IC_Pass4
+Next == Parse \/ LateAssign \/ IC_Pass1 \/ IC_Pass2 \/ IC_Pass3 \/ IC_Pass4
         \/ (\E k \in 1..horizon : Step(k)) \/ Finish
 
 Spec == Init /\ [][Next]_hvars
@@ -256,10 +271,11 @@ C10_TimeAxis ==
     (Done /\ ~HasUserT(cfg.vars)) => \A k \in 0..horizon : series["t"][k + 1] = k
 
 C10_Rejects ==
-    /\ RejectedInput(cfg) => phase \in {"setup", "parsed", "ic1", "reject"}
+    /\ RejectedInput(cfg) => phase \in {"setup", "parsed", "assigned", "ic1", "reject"}
     /\ phase = "reject" => (RejectedInput(cfg) /\ series = << >> /\ step = 0)
 
-TypeOK == /\ phase \in {"setup", "parsed", "ic1", "ic2", "ic3", "ic4", "step", "done", "reject"}
+TypeOK == /\ phase \in {"setup", "parsed", "assigned", "ic1", "ic2", "ic3", "ic4", "step", "done", "reject"}
           /\ step <= horizon
-          /\ phase \in {"parsed", "ic1"} => WellOrdered(vlist)
+          /\ phase \in {"parsed", "assigned", "ic1"} => WellOrdered(vlist)
+          /\ horizon = (IF phase = "setup" THEN 0 ELSE HorizonOf(cfg))     \* nothing after Parse moves it
 =============================================================================
